@@ -1,8 +1,78 @@
 import Oracle.Util
+import MobiusModel.Board
 /-! Oracle handlers for C19 (model functions exposed on the line protocol). -/
 namespace Oracle
-open Mobius
+open Mobius Mobius.Board
 
-def c19Handlers : List (String × Handler) := []
+/-- FNV-1a 64 of a byte string (large boards are compared by length + hash). -/
+def fnv64 (b : Bytes) : UInt64 :=
+  b.foldl (fun h c => (h ^^^ c.toUInt64) * 1099511628211) 14695981039346656037
+
+def digest (b : Bytes) : String := s!"{b.length}/{(fnv64 b).toNat}"
+
+/-- `512,384,…` → buffer-size function (the last entry repeats; empty script = 512; sizes below 1 become 1). -/
+def sizeFn (s : String) : Nat → Nat :=
+  let l := (s.splitOn ",").filterMap (·.toNat?)
+  fun i => max 1 (l.getD i (l.getLast?.getD 512))
+
+/-- `r:<sizes>` | `p:<hex>` -/
+def parseOp (s : String) : Option Op :=
+  match s.splitOn ":" with
+  | ["r", sz] => some (.read (sizeFn sz))
+  | ["r"] => some (.read (sizeFn ""))
+  | ["p", h] => some (.post (hexb h))
+  | _ => none
+
+/-- `<tag>:s:<off>` | `<tag>:r:<n>` | `<tag>:w:<hex>` -/
+def parseRaw (s : String) : Option (Nat × Raw) :=
+  match s.splitOn ":" with
+  | [t, "s", o] => some (num t, .seek (num o))
+  | [t, "r", n] => some (num t, .read (num n))
+  | [t, "w", h] => some (num t, .write (hexb h))
+  | _ => none
+
+def c19Handlers : List (String × Handler) := [
+  -- c19post <template> <name> <date> <body>  → the post text
+  ("c19post", fun (a : List String) => match a with
+    | [t, n, d, b] => toHex (formatPost (hexb t) (hexb n) (hexb d) (hexb b))
+    | _ => "bad-op"),
+  -- c19run <init> <op>…  → per op its result digest (reads) or `-` (posts), then final data digest, file digest
+  ("c19run", fun (a : List String) => match a with
+    | init :: ops =>
+      match ops.mapM parseOp with
+      | some l =>
+        let d := hexb init
+        let r := runOps ⟨d, 0, d⟩ l
+        let rs := (l.zip r.2).map fun (op, res) => match op with
+          | .read _ => digest res
+          | .post _ => "-"
+        " ".intercalate rs ++ " | " ++ digest r.1.data ++ " " ++ digest r.1.file
+      | none => "bad-op"
+    | _ => "bad-op"),
+  -- c19board <init> <post>…  → hex of the board after the posts (in that order)
+  ("c19board", fun (a : List String) => match a with
+    | init :: ps => toHex (boardAfter (hexb init) (ps.map fun h => Op.post (hexb h)))
+    | _ => "bad-op"),
+  -- c19raw <init> <cursor> <event>…  → per event `<bytes delivered digest>,<eof>`, then final data digest, file digest
+  ("c19raw", fun (a : List String) => match a with
+    | init :: cur :: evs =>
+      match evs.mapM parseRaw with
+      | some l =>
+        let d := hexb init
+        let r := runRaw ⟨d, num cur, d⟩ l
+        " ".intercalate (r.2.map fun (_, b, e) => s!"{digest b},{if e then 1 else 0}") ++ " | " ++
+          digest r.1.data ++ " " ++ digest r.1.file
+      | none => "bad-op"
+    | _ => "bad-op"),
+  -- c19got <init> <cursor> <tag> <event>…  → hex of what operation <tag> collected in the raw schedule
+  ("c19got", fun (a : List String) => match a with
+    | init :: cur :: tag :: evs =>
+      match evs.mapM parseRaw with
+      | some l =>
+        let d := hexb init
+        toHex (got (num tag) (runRaw ⟨d, num cur, d⟩ l).2)
+      | none => "bad-op"
+    | _ => "bad-op")
+]
 
 end Oracle
